@@ -26,7 +26,7 @@ def gen_outcome(r, cmd, p_error=0.15):
     return ["value", r.choice([0, 1, 254, 255, r.randrange(256), r.randrange(256)])]
 
 
-def gen_knobs(r, driver):
+def gen_knobs(r, driver, allow_batch=False):
     k = {"latency": r.choice(LATENCIES)}
     if driver == "tridonic":
         k["init_seq"] = r.choice([1, 2, 100, 250, 253, 254, 255, r.randrange(1, 256)])
@@ -34,7 +34,11 @@ def gen_knobs(r, driver):
     elif driver == "hasseb":
         k["idle_spam"] = r.random() < 0.4
     else:
-        k["chunking"] = r.choice(["whole", "bytes", "random"])
+        # "batch": a USB-serial latency timer hands several messages to one
+        # data_received() call and adds up to 16 ms - only for checks whose
+        # oracles take the real arrival times into account
+        k["chunking"] = r.choice(["whole", "bytes", "random", "batch"] if allow_batch
+                                 else ["whole", "bytes", "random"])
         if driver == "luba":
             k["accept_msg"] = r.random() < 0.5
     return k
